@@ -121,25 +121,31 @@ pub struct Cfg {
     /// Ethernet only: default route via the (initially unresolved) neighbor B; otherwise no
     /// route at all for the off-link destination C
     pub via_b: bool,
+    /// 0: ordinary link (IP MTU 1500, no datagram of the alphabet comes near it).  Otherwise
+    /// (IPv4, tx alphabet only) the IP MTU of a "tight" link: the size classes of the alphabet
+    /// are then {hdr, M-1, M, M+1} where a datagram of M bytes gives an IP packet of exactly
+    /// `ip_mtu` bytes (36: ip_mtu % 8 == 4, i.e. (ip_mtu-20) % 8 == 0; 34: another residue).
+    pub ip_mtu: usize,
 }
 impl std::fmt::Debug for Cfg {
     fn fmt(&self, f: &mut std::fmt::Formatter) -> std::fmt::Result {
         write!(
             f,
-            "phase={} kind={} medium={} ip={} slots={} k={} route={}",
+            "phase={} kind={} medium={} ip={} slots={} k={} route={} mtu={}",
             self.phase.name(),
             self.kind.name(),
             if self.eth { "eth" } else { "ip" },
             if self.v6 { "v6" } else { "v4" },
             self.slots,
             self.k,
-            if self.via_b { "viaB" } else { "none" }
+            if self.via_b { "viaB" } else { "none" },
+            if self.ip_mtu == 0 { "std".to_string() } else { self.ip_mtu.to_string() }
         )
     }
 }
 impl Cfg {
     fn parse(s: &str) -> Option<Cfg> {
-        let mut c = Cfg { phase: Phase::Mix, kind: Kind::Udp, eth: true, v6: false, slots: 1, k: 4, via_b: false };
+        let mut c = Cfg { phase: Phase::Mix, kind: Kind::Udp, eth: true, v6: false, slots: 1, k: 4, via_b: false, ip_mtu: 0 };
         let mut seen = 0;
         for tok in s.split_whitespace() {
             let (k, v) = tok.split_once('=')?;
@@ -166,6 +172,11 @@ impl Cfg {
                 "slots" => c.slots = v.parse().ok()?,
                 "k" => c.k = v.parse().ok()?,
                 "route" => c.via_b = v == "viaB",
+                // absent in artefacts written before the tight-MTU configurations existed
+                "mtu" => {
+                    seen -= 1;
+                    c.ip_mtu = if v == "std" { 0 } else { v.parse().ok()? }
+                }
                 _ => return None,
             }
         }
@@ -192,10 +203,34 @@ impl Cfg {
     fn cap(&self) -> usize {
         2 * self.hdr() + self.k
     }
-    /// datagram sizes of the alphabet: header + {0,1,3} free bytes and the payload capacity
+    /// datagram sizes of the alphabet: header + {0,1,3} free bytes and the payload capacity;
+    /// on a tight link: header only, one less than / exactly / one more than what fills the MTU
     fn sizes(&self) -> [usize; 4] {
         let h = self.hdr();
+        if self.ip_mtu != 0 {
+            let m = self.fills_mtu();
+            return [h, m - 1, m, m + 1];
+        }
         [h, h + 1, h + 3, self.cap()]
+    }
+    /// IPv4 packet length of a datagram of `size` application bytes
+    fn ip_len(&self, size: usize) -> usize {
+        match self.kind {
+            Kind::Udp => 20 + 8 + size,
+            Kind::Icmp => 20 + size,
+            Kind::Raw => size,
+        }
+    }
+    fn link_ip_mtu(&self) -> usize {
+        if self.ip_mtu == 0 {
+            1500
+        } else {
+            self.ip_mtu
+        }
+    }
+    /// application size whose IP packet is exactly the (tight) IP MTU
+    fn fills_mtu(&self) -> usize {
+        self.ip_mtu - self.ip_len(0)
     }
     fn small_buf(&self) -> usize {
         self.hdr() + 2
@@ -211,6 +246,47 @@ pub enum Who {
     B,
     /// off-link host (reached through the default route via B, or unroutable)
     C,
+}
+
+/// IP destination of an inbound datagram
+#[derive(Clone, Copy, PartialEq, Eq, Debug, Hash, PartialOrd, Ord)]
+pub enum To {
+    /// our unicast address
+    Us,
+    /// IPv4 subnet broadcast 192.168.1.255
+    SubnetBcast,
+    /// IPv4 limited broadcast 255.255.255.255
+    LimitedBcast,
+    /// all-systems 224.0.0.1 / all-nodes ff02::1
+    Mcast,
+    /// IPv6 only: the solicited-node group of our address (a group the interface is a member of)
+    Mcast2,
+}
+
+/// (IP destination, Ethernet destination) of an inbound datagram
+fn to_addr(v6: bool, to: To) -> (Addr, [u8; 6]) {
+    match (v6, to) {
+        (_, To::Us) => (addr(v6, Who::Us), MAC_US),
+        (false, To::SubnetBcast) => (Addr::V4([192, 168, 1, 255]), [0xff; 6]),
+        (false, To::LimitedBcast) => (Addr::V4([255; 4]), [0xff; 6]),
+        (false, _) => (Addr::V4([224, 0, 0, 1]), [0x01, 0x00, 0x5e, 0, 0, 1]),
+        (true, To::Mcast2) => {
+            let mut a = [0u8; 16];
+            a[0] = 0xff;
+            a[1] = 0x02;
+            a[11] = 0x01;
+            a[12] = 0xff;
+            a[15] = 0x01;
+            (Addr::V6(a), [0x33, 0x33, 0xff, 0, 0, 1])
+        }
+        (true, _) => {
+            let mut a = [0u8; 16];
+            a[0] = 0xff;
+            a[1] = 0x02;
+            a[15] = 0x01;
+            (Addr::V6(a), [0x33, 0x33, 0, 0, 0, 1])
+        }
+    }
 }
 
 const MAC_US: [u8; 6] = [0x02, 0, 0, 0, 0, 0x01];
@@ -320,9 +396,13 @@ outcomes! {
     InDelivered => "inbound:delivered",
     InDeliveredZero => "inbound:zero-length datagram delivered",
     InDroppedTolerated => "inbound:dropped(rx queue non-empty)",
+    InNonUnicastDelivered => "inbound:broadcast/multicast destination, delivered",
+    InNonUnicastNotDelivered => "inbound:broadcast/multicast destination, not delivered (tolerated)",
     InNotEligible => "inbound:not-for-socket(unbound/non-matching/oversize),not queued",
     TxMatched => "frame:socket-datagram==head-of-model-queue",
     TxMatchedSkipping => "frame:socket-datagram matched after skipping never-deliverable entries",
+    TxFragFirst => "frame:first IPv4 fragment of a datagram that exceeds the link MTU",
+    TxFragRest => "frame:later IPv4 fragment (not judged here, C12)",
     TxArpReq => "frame:ARP request",
     TxNs => "frame:neighbor solicitation",
     TxOther => "frame:other (ICMP error, MLD, ARP reply, NA)",
@@ -337,9 +417,9 @@ outcomes! {
 }
 // per-thread counters (no cache-line ping-pong between the 16 workers), summed at the end
 thread_local! {
-    static LOCAL_OUT: [std::cell::Cell<u64>; 32] = const { [const { std::cell::Cell::new(0) }; 32] };
+    static LOCAL_OUT: [std::cell::Cell<u64>; 48] = const { [const { std::cell::Cell::new(0) }; 48] };
 }
-static OUT: [AtomicU64; 32] = [const { AtomicU64::new(0) }; 32];
+static OUT: [AtomicU64; 48] = [const { AtomicU64::new(0) }; 48];
 fn stat(o: O) {
     LOCAL_OUT.with(|l| l[o as usize].set(l[o as usize].get() + 1));
 }
@@ -376,6 +456,9 @@ struct TxEntry {
 struct RxEntry {
     label: u8,
     from: Who,
+    /// IP destination of the frame that carried it (udp: must come back as local_address;
+    /// raw: is part of the expected packet)
+    to: To,
     /// what recv must return: udp payload / ICMP message / IP packet
     bytes: Vec<u8>,
 }
@@ -415,7 +498,8 @@ pub enum Ev {
     /// destination port 0 (udp::Socket encodes unbound/closed as port 0); icmp: a port-unreachable
     /// error quoting a udp datagram of ours (an Ident-bound or unbound socket accepts no errors).
     /// Never deliverable, in any socket state.
-    Inbound { size: usize, from: Who, matching: bool, ghost: bool },
+    /// `to`: IP destination of the frame (own unicast address, broadcast, multicast)
+    Inbound { size: usize, from: Who, to: To, matching: bool, ghost: bool },
     /// the ARP reply / neighbor advertisement of B arrives and the interface is polled
     NeighReply,
     /// the next n `transmit()` calls are refused
@@ -440,6 +524,8 @@ pub struct DgH {
     /// a neighbor request for B was seen on the wire and not answered yet
     pending_b: bool,
     b_resolved: bool,
+    /// a datagram too big for the link has started to leave as IPv4 fragments
+    frag_started: bool,
     /// the model lost track after a violation: no further events
     tainted: bool,
     last_sent: Option<Vec<u8>>,
@@ -519,15 +605,22 @@ impl DgH {
         }
         if rx {
             let s = cfg.sizes();
-            v.push(Ev::Inbound { size: s[0], from: Who::A, matching: true, ghost: false });
-            v.push(Ev::Inbound { size: s[1], from: Who::B, matching: true, ghost: false });
-            v.push(Ev::Inbound { size: s[2], from: Who::A, matching: true, ghost: false });
-            v.push(Ev::Inbound { size: s[3], from: Who::A, matching: true, ghost: false });
-            v.push(Ev::Inbound { size: s[3] + 1, from: Who::B, matching: true, ghost: false });
-            v.push(Ev::Inbound { size: s[1], from: Who::B, matching: false, ghost: false });
+            v.push(Ev::Inbound { size: s[0], from: Who::A, to: To::Us, matching: true, ghost: false });
+            v.push(Ev::Inbound { size: s[1], from: Who::B, to: To::Us, matching: true, ghost: false });
+            v.push(Ev::Inbound { size: s[2], from: Who::A, to: To::Us, matching: true, ghost: false });
+            v.push(Ev::Inbound { size: s[3], from: Who::A, to: To::Us, matching: true, ghost: false });
+            v.push(Ev::Inbound { size: s[3] + 1, from: Who::B, to: To::Us, matching: true, ghost: false });
+            v.push(Ev::Inbound { size: s[1], from: Who::B, to: To::Us, matching: false, ghost: false });
+            // datagrams for the socket's port / ident / protocol whose IP destination is not our
+            // unicast address: whether they are delivered is taken from the unchanged tree
+            // (lenient); if they are, the metadata must name the frame's real destination
+            let tos: &[To] = if cfg.v6 { &[To::Mcast, To::Mcast2] } else { &[To::SubnetBcast, To::LimitedBcast, To::Mcast] };
+            for &to in tos {
+                v.push(Ev::Inbound { size: s[1], from: Who::A, to, matching: true, ghost: false });
+            }
             if cfg.kind != Kind::Raw {
                 // offered in every socket state: never bound (mix), bound, closed (udp)
-                v.push(Ev::Inbound { size: s[1], from: Who::A, matching: false, ghost: true });
+                v.push(Ev::Inbound { size: s[1], from: Who::A, to: To::Us, matching: false, ghost: true });
             }
         }
         if tx {
@@ -612,9 +705,10 @@ impl DgH {
     }
 
     /// (frame for the device, bytes recv must return) of an inbound datagram
-    fn inbound_frame(&self, size: usize, from: Who, matching: bool, ghost: bool, label: u8) -> (Vec<u8>, Vec<u8>) {
+    fn inbound_frame(&self, size: usize, from: Who, to: To, matching: bool, ghost: bool, label: u8) -> (Vec<u8>, Vec<u8>) {
         let v6 = self.cfg.v6;
-        let (src, dst) = (self.a(from), self.us());
+        let (dst, dmac) = to_addr(v6, to);
+        let src = self.a(from);
         let free = data(size - self.cfg.hdr(), label);
         let (packet, expect) = match self.cfg.kind {
             Kind::Udp => {
@@ -647,7 +741,7 @@ impl DgH {
         };
         let frame = if self.cfg.eth {
             let smac = if from == Who::A { MAC_A } else { MAC_B };
-            fr::eth(&MAC_US, &smac, if v6 { fr::ETH_IPV6 } else { fr::ETH_IPV4 }, &packet)
+            fr::eth(&dmac, &smac, if v6 { fr::ETH_IPV6 } else { fr::ETH_IPV4 }, &packet)
         } else {
             packet
         };
@@ -754,11 +848,66 @@ impl DgH {
         }
     }
 
+    /// Like `tx_diff` for the FIRST IPv4 fragment (MF=1, offset 0) of a datagram: the fragment
+    /// must carry a (possibly complete) prefix of the datagram.
+    fn tx_prefix_diff(&self, e: &TxEntry, info: &wc::IpInfo, payload: &[u8]) -> Option<&'static str> {
+        if e.malformed {
+            return Some("malformed-datagram-transmitted");
+        }
+        if info.dst != self.a(e.dst) {
+            return Some("destination-address");
+        }
+        match self.cfg.kind {
+            Kind::Udp => {
+                if payload.len() < 8 {
+                    return Some("udp-header-split");
+                }
+                let dport = ((payload[2] as u16) << 8) | payload[3] as u16;
+                let len = ((payload[4] as usize) << 8) | payload[5] as usize;
+                if dport != REMOTE_PORT {
+                    Some("destination-port")
+                } else if len != 8 + e.bytes.len() {
+                    Some("payload-length")
+                } else if !e.bytes.starts_with(&payload[8..]) {
+                    Some("payload-bytes")
+                } else {
+                    None
+                }
+            }
+            Kind::Icmp => {
+                if payload.len() < 8 || payload.len() > e.bytes.len() {
+                    Some("payload-length")
+                } else if payload[..2] != e.bytes[..2] || !e.bytes[4..].starts_with(&payload[4..]) {
+                    Some("payload-bytes")
+                } else {
+                    None
+                }
+            }
+            Kind::Raw => {
+                let h = self.cfg.hdr();
+                if info.proto != RAW_PROTO {
+                    Some("protocol")
+                } else if info.hop_limit != e.bytes[8] {
+                    Some("hop-limit")
+                } else if !e.bytes[h..].starts_with(payload) {
+                    Some("payload-bytes")
+                } else {
+                    None
+                }
+            }
+        }
+    }
+
     fn deliverable(&self, e: &TxEntry) -> bool {
         !e.malformed && (e.dst != Who::C || !self.cfg.eth || self.cfg.via_b)
     }
 
     fn on_frame(&mut self, f: &[u8], out: &mut Vec<Viol>) {
+        if self.tainted {
+            // the model is out of step after a violation: later frames of the same poll would
+            // only produce follow-up noise
+            return;
+        }
         let p = fr::parse_frame(self.cfg.eth, f);
         let (info, packet) = match &p.l3 {
             fr::L3::Arp { oper, tpa, .. } => {
@@ -794,7 +943,21 @@ impl DgH {
             return;
         }
         // --- a datagram of the socket under test is on the wire ---
-        let pos = (0..self.tx_model.len()).find(|&i| self.tx_diff(&self.tx_model[i], &info, payload).is_none());
+        // IPv4 fragments: a datagram that FITS the link must leave as one unfragmented packet
+        // (MF = 0, offset 0).  For a datagram that exceeds the IP MTU the oracle is lenient
+        // (fragmentation itself is C12's subject): its FIRST fragment stands for the datagram
+        // (order, at-most-once, addressing, content prefix), later fragments are only counted.
+        let frag_first = info.version == 4 && info.more_frags && info.frag_offset == 0;
+        if info.version == 4 && info.frag_offset != 0 {
+            stat(O::TxFragRest);
+            if !self.frag_started {
+                let d = format!("IPv4 fragment at offset {} ({} -> {}) although no datagram exceeding the MTU has started to leave", info.frag_offset, info.src, info.dst);
+                self.viol(out, "tx-unmodified", "stray-fragment", d, true);
+            }
+            return;
+        }
+        let differs = |h: &DgH, e: &TxEntry| if frag_first { h.tx_prefix_diff(e, &info, payload) } else { h.tx_diff(e, &info, payload) };
+        let pos = (0..self.tx_model.len()).find(|&i| differs(self, &self.tx_model[i]).is_none());
         let Some(pos) = pos else {
             let desc = format!("{} -> {} {}", info.src, info.dst, hex(payload));
             if self.tx_model.is_empty() {
@@ -805,7 +968,7 @@ impl DgH {
                 }
             } else {
                 let head = self.tx_model[0].clone();
-                let aspect = self.tx_diff(&head, &info, payload).unwrap_or("?");
+                let aspect = differs(self, &head).unwrap_or("?");
                 let dup = self.last_sent.as_deref() == Some(&packet[..]);
                 let d = format!(
                     "datagram {} on the wire matches no pending accepted datagram; oldest pending: to {} bytes {}{}",
@@ -836,12 +999,31 @@ impl DgH {
             self.viol(out, "tx-order", "overtook-older-datagram", d, true);
             return;
         }
-        stat(if pos == 0 { O::TxMatched } else { O::TxMatchedSkipping });
         let e = self.tx_model[pos].clone();
         for _ in 0..=pos {
             self.tx_model.pop_front();
         }
         self.last_sent = Some(packet.clone());
+        if frag_first {
+            let (need, mtu) = (self.cfg.ip_len(e.bytes.len()), self.cfg.link_ip_mtu());
+            if need <= mtu {
+                let d = format!(
+                    "datagram #{} ({} bytes to {}) makes an IP packet of {} bytes, which fits the IP MTU {}, but left as a fragment (MF=1, offset 0, {} bytes); the receiver cannot complete it unless more fragments follow",
+                    e.label,
+                    e.bytes.len(),
+                    info.dst,
+                    need,
+                    mtu,
+                    info.total_len
+                );
+                self.viol(out, "tx-unmodified", "fragmented-although-it-fits", d, true);
+                return;
+            }
+            stat(O::TxFragFirst);
+            self.frag_started = true;
+        } else {
+            stat(if pos == 0 { O::TxMatched } else { O::TxMatchedSkipping });
+        }
         // addressing of the matched datagram
         // the interface owns exactly one address of the family (udp/icmp: selected by the
         // stack; raw: the address the application wrote into its header)
@@ -850,7 +1032,8 @@ impl DgH {
             self.viol(out, "tx-addressing", "source-address", d, false);
         }
         if self.cfg.kind == Kind::Udp {
-            if let Ok((sport, _, _)) = fr::parse_udp(payload) {
+            if payload.len() >= 2 {
+                let sport = ((payload[0] as u16) << 8) | payload[1] as u16;
                 if sport != LOCAL_PORT {
                     let d = format!("datagram #{} left with source port {} (socket bound to {})", e.label, sport, LOCAL_PORT);
                     self.viol(out, "tx-addressing", "source-port", d, false);
@@ -1033,7 +1216,9 @@ impl DgH {
             }
         }
         if let Some(l) = local {
-            if *l != Some(self.us()) {
+            // udp: "The IP address to which an incoming datagram was sent ... Incoming
+            // datagrams always have this set" (UdpMetadata::local_address)
+            if *l != Some(to_addr(self.cfg.v6, e.to).0) {
                 return Some("local-address");
             }
         }
@@ -1081,7 +1266,7 @@ impl DgH {
                 };
                 if let Some(aspect) = self.rx_diff(&e, &bytes, &src, &sport, &local) {
                     let later = (1..self.rx_model.len()).find(|&i| self.rx_diff(&self.rx_model[i], &bytes, &src, &sport, &local).is_none());
-                    let want = format!("oldest unread datagram #{}: {} bytes {} from {}", e.label, e.bytes.len(), hex(&e.bytes), self.a(e.from));
+                    let want = format!("oldest unread datagram #{}: {} bytes {} carried by a frame from {} to {}", e.label, e.bytes.len(), hex(&e.bytes), self.a(e.from), to_addr(self.cfg.v6, e.to).0);
                     if let Some(i) = later {
                         let d = format!("{} returned datagram #{} ({}) before the {}", call, self.rx_model[i].label, got_desc, want);
                         self.viol(out, "rx-order", "overtook-older-datagram", d, true);
@@ -1203,10 +1388,10 @@ impl DgH {
         }
     }
 
-    fn do_inbound(&mut self, size: usize, from: Who, matching: bool, ghost: bool, out: &mut Vec<Viol>) {
+    fn do_inbound(&mut self, size: usize, from: Who, to: To, matching: bool, ghost: bool, out: &mut Vec<Viol>) {
         let label = self.rx_label;
         self.rx_label += 1;
-        let (frame, expect) = self.inbound_frame(size, from, matching, ghost, label);
+        let (frame, expect) = self.inbound_frame(size, from, to, matching, ghost, label);
         let q0 = self.recv_queue();
         let n0 = if size == 0 { self.rx_packets_queued() } else { 0 };
         let open = self.rx_open();
@@ -1243,9 +1428,12 @@ impl DgH {
         }
         if size > 0 {
             if q1 > q0 {
-                vlog!("      inbound #{} delivered (recv_queue {} -> {})", label, q0, q1);
-                stat(O::InDelivered);
-                self.rx_model.push_back(RxEntry { label, from, bytes: expect });
+                vlog!("      inbound #{} to {} delivered (recv_queue {} -> {})", label, to_addr(self.cfg.v6, to).0, q0, q1);
+                stat(if to == To::Us { O::InDelivered } else { O::InNonUnicastDelivered });
+                self.rx_model.push_back(RxEntry { label, from, to, bytes: expect });
+            } else if to != To::Us {
+                vlog!("      inbound #{} to {} not delivered (tolerated: not addressed to our unicast address)", label, to_addr(self.cfg.v6, to).0);
+                stat(O::InNonUnicastNotDelivered);
             } else if model_empty {
                 let d = format!("valid datagram #{} ({} bytes <= capacity {}) for the bound socket was not delivered although its rx buffer was empty", label, size, self.cfg.cap());
                 self.viol(out, "rx-delivery", "dropped-into-empty-buffer", d, false);
@@ -1261,7 +1449,7 @@ impl DgH {
             if n1 > n0 {
                 vlog!("      inbound #{} (zero length) delivered", label);
                 stat(O::InDeliveredZero);
-                self.rx_model.push_back(RxEntry { label, from, bytes: expect });
+                self.rx_model.push_back(RxEntry { label, from, to, bytes: expect });
             } else if model_empty {
                 let d = format!("valid zero-length datagram #{} for the bound socket was not delivered although its rx buffer was empty", label);
                 self.viol(out, "rx-delivery", "dropped-into-empty-buffer", d, false);
@@ -1419,6 +1607,28 @@ impl DgH {
         // (2) ipv4_id is only written into frames when fragmenting (Ipv4Repr::emit sets ident 0);
         //     no datagram here exceeds the MTU, so it is never observable.
         let s = strip_between(&s, "ipv4_id=", " ");
+        // (2b) egress fragmenter (only used on the tight links, by datagrams one byte over the
+        //     MTU): the fragment ident and the bytes of the packet in flight are only ever
+        //     copied into later fragments, which this harness does not judge (C12 does), and
+        //     never branched on; `Fragmenter::reset` leaves ident/offset stale, so an empty
+        //     fragmenter (packet_len == 0) is one state.  len/sent/repr/hw of a packet in flight
+        //     are kept.
+        let s = if s.contains(" frag[len=0 ") {
+            strip_between(&s, " frag[", " reasm[").replacen(" frag[", " frag[empty]", 1)
+        } else {
+            let s = strip_between(&s, " buf=", " reasm[");
+            match (s.find(" frag[len="), s.find(") 6lo(")) {
+                (Some(a), Some(b)) if a < b => {
+                    // drop " id=N" in front of ") 6lo("
+                    let head = &s[..b];
+                    match head.rfind(" id=") {
+                        Some(i) if i > a => format!("{}{}", &s[..i], &s[b..]),
+                        _ => s,
+                    }
+                }
+                _ => s,
+            }
+        };
         // (3) absolute instants -> relative to now; past ones collapse (only ever compared
         //     with the current time: neighbor cache `silent_until`/`expires_at`, socket meta
         //     `silent_until`); more than 3 s ahead collapse to "far": the only such values are
@@ -1576,7 +1786,7 @@ impl Harness for DgH {
 
     fn new(cfg: &Cfg) -> Self {
         let medium = if cfg.eth { Medium::Ethernet } else { Medium::Ip };
-        let mut dev = BpDev { inner: SimDevice::new(medium, if cfg.eth { 1514 } else { 1500 }), refuse_next: 0 };
+        let mut dev = BpDev { inner: SimDevice::new(medium, cfg.link_ip_mtu() + if cfg.eth { 14 } else { 0 }), refuse_next: 0 };
         let hw = if cfg.eth { HardwareAddress::Ethernet(EthernetAddress(MAC_US)) } else { HardwareAddress::Ip };
         let mut c = Config::new(hw);
         c.random_seed = 1;
@@ -1618,6 +1828,7 @@ impl Harness for DgH {
             rx_label: 0,
             pending_b: false,
             b_resolved: false,
+            frag_started: false,
             tainted: false,
             last_sent: None,
             last_recv: None,
@@ -1688,7 +1899,7 @@ impl Harness for DgH {
                 self.iface.poll_egress(t, &mut self.dev, &mut self.sockets);
                 self.collect(out);
             }
-            Ev::Inbound { size, from, matching, ghost } => self.do_inbound(*size, *from, *matching, *ghost, out),
+            Ev::Inbound { size, from, to, matching, ghost } => self.do_inbound(*size, *from, *to, *matching, *ghost, out),
             Ev::NeighReply => self.do_neigh_reply(out),
             Ev::Refuse(n) => self.dev.refuse_next = *n,
             Ev::Tick => self.now += 1_000_000,
@@ -1711,8 +1922,8 @@ impl Harness for DgH {
             stat(O::PaddingState);
         }
         let tx: Vec<(usize, Who, bool)> = self.tx_model.iter().map(|e| (e.bytes.len(), e.dst, e.malformed)).collect();
-        let rx: Vec<(usize, Who)> = self.rx_model.iter().map(|e| (e.bytes.len(), e.from)).collect();
-        fp128(&(img, tx, rx, self.dev.refuse_next, self.dev.inner.rx.len(), self.pending_b, self.b_resolved, self.tainted))
+        let rx: Vec<(usize, Who, To)> = self.rx_model.iter().map(|e| (e.bytes.len(), e.from, e.to)).collect();
+        fp128(&(img, tx, rx, self.dev.refuse_next, self.dev.inner.rx.len(), self.pending_b, self.b_resolved, self.tainted, self.frag_started))
     }
 
     fn outcome(&self) -> String {
@@ -1740,6 +1951,16 @@ fn depth_for(tier: Tier, c: &Cfg) -> usize {
         if p.len() == 3 {
             return p[c.phase as usize];
         }
+    }
+    if c.ip_mtu != 0 {
+        // tight links: larger buffers (room for two MTU-sized datagrams) => larger spaces;
+        // the MTU boundary itself needs 2 events (send, poll)
+        return match (tier, c.slots) {
+            (Tier::Quick, _) => 5,
+            (Tier::Thorough, 1) => 20,
+            (Tier::Thorough, 2) => 8,
+            (Tier::Thorough, _) => 6,
+        };
     }
     match (tier, c.phase) {
         (_, Phase::Rx) => FIX,
@@ -1788,10 +2009,28 @@ fn configs(tier: Tier) -> Vec<(Cfg, usize)> {
                         if tier == Tier::Quick && ![(1, 4), (2, 6), (3, 8)].contains(&(slots, k)) {
                             continue;
                         }
-                        let c = Cfg { phase, kind, eth, v6, slots, k, via_b };
+                        let c = Cfg { phase, kind, eth, v6, slots, k, via_b, ip_mtu: 0 };
                         let d = depth_for(tier, &c);
                         v.push((c, d));
                     }
+                }
+            }
+        }
+    }
+    // tight links (IPv4, tx alphabet): sizes {hdr, M-1, M, M+1} around the datagram that exactly
+    // fills the IP MTU; 36 = 4 mod 8 (fragment payload 16, a multiple of 8), 34 = another residue
+    for kind in [Kind::Udp, Kind::Icmp, Kind::Raw] {
+        for ip_mtu in [36usize, 34] {
+            for (eth, via_b) in [(true, false), (true, true), (false, false)] {
+                for slots in [1usize, 2, 3] {
+                    if tier == Tier::Quick && slots != 2 {
+                        continue;
+                    }
+                    let mut c = Cfg { phase: Phase::Tx, kind, eth, v6: false, slots, k: 0, via_b, ip_mtu };
+                    // room for two datagrams of about the critical size (wrap-around included)
+                    c.k = 2 * (c.fills_mtu() - c.hdr()) + 2;
+                    let d = depth_for(tier, &c);
+                    v.push((c, d));
                 }
             }
         }
@@ -1806,7 +2045,7 @@ pub fn run(tier: Tier) -> i32 {
     rep.assumptions.push("state merging: fingerprint = Interface::verif_digest + SocketSet debug image with (1) payload ring bytes replaced by the model queues (label renaming), (2) ipv4_id stripped (never on the wire without fragmentation), (3) instants made relative to now (past -> '-', > 3 s ahead -> 'far': only neighbor lifetimes of 60 s, histories last < 55 s, checked at run time), (4) only the allocated records of the metadata rings kept, read position of an EMPTY payload ring dropped (enqueue clears an empty ring first), (5) an expired neighbor wait of the socket == Active; plus model queues, back-pressure counter, pending neighbor request. The arguments are written next to `normalized_image`".into());
     rep.assumptions.push("model bookkeeping uses public api only: send*/recv*/peek* results, send_queue()/recv_queue()/can_recv(), packet capacities; the single exception is whether a ZERO-length udp datagram was queued (recv_queue() cannot tell), which is read from the socket's public Debug image".into());
     rep.assumptions.push("lenient readings: icmp sockets: checksum field of sent/received ICMP messages masked (the socket re-serialises the message); raw sockets: IP header compared by version/src/dst/protocol/hop limit, payload byte-exact (header documented as re-serialised); 3-byte garbage handed to an icmp/raw socket and datagrams to a destination without route may be dropped or stay queued, but must never appear on the wire differently; a zero-length udp datagram carries no label (order among identical zero-length datagrams is not observable)".into());
-    rep.assumptions.push("close() discards queued datagrams (documented); datagram sizes stay far below the MTU (fragmentation is C12's subject)".into());
+    rep.assumptions.push("close() discards queued datagrams (documented); on the ordinary links datagram sizes stay far below the MTU; on the tight IPv4 links a datagram that fits the IP MTU must leave as ONE unfragmented packet, for a datagram one byte over the MTU only the first fragment is judged (order, at most once, addressing, content prefix) - fragmentation itself is C12's subject; fingerprint: ident and buffered bytes of the egress fragmenter stripped (only copied into later fragments), an empty fragmenter is one state".into());
     let lim = Limits { max_states: std::env::var("DGRAM_MAXSTATES").ok().and_then(|x| x.parse().ok()).unwrap_or(50_000_000), max_wall_s: 36000.0 };
     let mut cfgs = configs(tier);
     if let Ok(f) = std::env::var("DGRAM_ONLY") {
@@ -1889,11 +2128,12 @@ pub fn run(tier: Tier) -> i32 {
     rep.cov(
         "alphabet",
         json!({
+            "tight_links": "IPv4, tx alphabet, IP MTU 36 (= 4 mod 8) and 34: send sizes {hdr, M-1, M, M+1} with M = the datagram whose IP packet is exactly the IP MTU; a datagram that fits must leave unfragmented (MF=0, offset 0); for M+1 the first fragment stands for the datagram, later fragments are only counted (C12)",
             "send": "size in {hdr, hdr+1, hdr+3, capacity} x destination in {A resolved, B unresolved on-link, C off-link (default route via B | no route)}; api rotates over send_slice / send / send_with(max=size+2); plus 3 malformed bytes (icmp, raw)",
             "receive": "recv_slice(capacity+8), recv_slice(hdr+2), peek, peek_slice(hdr+2) (udp, raw)",
             "socket": "bind(port) / bind(addr,port) / close (udp); bind(Ident) (icmp)",
             "interface": "poll, poll_egress, +1 s, refuse next 1|2 transmit() calls",
-            "inbound": "matching endpoint, sizes hdr, hdr+1, hdr+3, capacity, capacity+1 from A/B; non-matching port/ident/protocol; udp: destination port 0, icmp: port-unreachable error (can only match a socket without endpoint; must never be queued, whether the socket was never bound, is bound or was closed); each followed by poll",
+            "inbound": "matching endpoint to our unicast address, sizes hdr, hdr+1, hdr+3, capacity, capacity+1 from A/B; the same endpoint with IP destination subnet broadcast / limited broadcast / 224.0.0.1 (IPv4), ff02::1 / our solicited-node group (IPv6): delivery as the unchanged tree does it, metadata must name the frame's destination; non-matching port/ident/protocol; udp: destination port 0, icmp: port-unreachable error (can only match a socket without endpoint; must never be queued, whether the socket was never bound, is bound or was closed); each followed by poll",
             "neighbor": "ARP reply / neighbor advertisement of B when a request is pending",
             "drain": "lift back-pressure, answer requests, poll to quiescence, tx liveness verdict"
         }),
